@@ -173,6 +173,9 @@ func VerifHarness_C09_ops() {
 			verifrt.Note("Revert(%d) at tip %d: panic=%v %s err=%v", t, ref.tip(), panicked, what, err)
 			verifrt.Sig("Revert", "panic")
 			verifrt.Assert(!panicked, "C09.revert.no-panic")
+			// without storage faults a revert to a height of the chain succeeds
+			verifrt.Sig("Revert", "err")
+			verifrt.Assert(err == nil, "C09.revert.valid-target-succeeds")
 			if err != nil {
 				// a failed revert must leave every answer unchanged
 				verifrt.Reach("C09.revert.failed")
@@ -183,6 +186,17 @@ func VerifHarness_C09_ops() {
 				ref.hashes = ref.hashes[:t+1]
 				verifrt.Reach("C09.revert.ok")
 				c09Sweep(repo, ref, ctx, "after-revert")
+				// the files a revert leaves behind load to the same chain (no stale or missing file)
+				shadow := NewBlockRepository(cfg, store.clone())
+				serr := shadow.Load(ctx)
+				verifrt.Sig("Revert", "image-load")
+				verifrt.Assert(serr == nil, "C09.revert.persistent-image-loads")
+				if serr == nil {
+					saved := ref.removed
+					ref.removed = nil
+					c09Sweep(shadow, ref, ctx, "image-after-revert")
+					ref.removed = saved
+				}
 			}
 		case 2:
 			err := repo.Save(ctx)
